@@ -32,6 +32,7 @@ class Offence:
     node: ast.AST
     what: str  # "branch" | "loop" | "ifexp" | "arg"
     text: str
+    required: bool | None = None  # for a branch: the truth value of the test on the way to the sink
 
 
 class RankTaint:
@@ -138,7 +139,7 @@ class RankTaint:
                     if t.kind == "test" and not isinstance(t.ast, ast.Assert):
                         why = self._is_var(t.ast.test, sc, var)
                         if why:
-                            out.append(Offence(fi.qual, t.ast, "branch", f"reached only when `{ast.unparse(t.ast.test)[:80]}` is {'true' if lab == 'T' else 'false'}: {why}"))
+                            out.append(Offence(fi.qual, t.ast, "branch", f"reached only when `{ast.unparse(t.ast.test)[:80]}` is {'true' if lab == 'T' else 'false'}: {why}", required=(lab == "T")))
             n = node
             while id(n) in par:
                 p = par[id(n)]
